@@ -4,7 +4,59 @@ from pyvc.tys import *
 from specs.prim import *
 import contracts.syntax      # abstract Segment
 
+from contracts.x12file import SEG_PROBES, native_segment, _lazy
+
 set_scope('contracts.error_997')
+
+
+# ---- native replay: a real visitor over a recording stream, in the state of the counter-model ----
+class _FD(object):
+    def __init__(self, log):
+        self.log = list(log)
+
+    def write(self, s):
+        self.log.append(s)
+
+
+class _Rec(object):
+    pass
+
+
+def _native_visitor(state):
+    import pyx12.error_997
+    v = pyx12.error_997.error_997_visitor(_FD(state.get('.fd.log') or []))
+    for k in ('seg_term', 'ele_term', 'subele_term', 'eol'):
+        if state.get('.' + k) is not None:
+            setattr(v, k, state['.' + k])
+    for k in ('seg_count', 'st_control_num', 'st_loop_count'):
+        setattr(v, k, state.get('.' + k, 0))
+    return v
+
+
+def _native_rec(state, names):
+    r = _Rec()
+    for n in names:
+        setattr(r, n, _lazy(state, '.' + n))
+    return r
+
+
+def build_vis_write(args):
+    v = _native_visitor(args.get('self', {}))
+    seg = native_segment(args.get('__probes__', {}))
+    return (lambda: v._write(seg)), (), {'self': v, 'seg_data': seg}
+
+
+def build_vis_gs_pre(args):
+    v = _native_visitor(args.get('self', {}))
+    g = _native_rec(args.get('err_gs', {}), ('fic', 'gs_control_num', 'ack_code', 'st_count_orig', 'st_count_recv'))
+    return (lambda: v.visit_gs_pre(g)), (), {'self': v, 'err_gs': g}
+
+
+def build_vis_st_pre(args):
+    v = _native_visitor(args.get('self', {}))
+    e = _native_rec(args.get('err_st', {}), ('trn_set_id', 'trn_set_control_num'))
+    return (lambda: v.visit_st_pre(e)), (), {'self': v, 'err_st': e}
+
 
 VIS = Obj('pyx12.error_997.error_997_visitor', fd=Obj('ext.TextOutRaw', log=ListOf(Str)), seg_term=Str, ele_term=Str,
           subele_term=Str, eol=Str, seg_count=Int, st_control_num=Int, st_loop_count=Int)
@@ -20,6 +72,7 @@ contract('pyx12.error_997.error_997_visitor._write',
                   'self.fd.log[:-1] == old(self.fd.log)'] + FRAME,
          raises={},
          modifies=['seg_count', 'fd.log'],
+         ghost={'probes': SEG_PROBES}, build='build_vis_write',
          serves=['C06'],
          note='every segment of the acknowledgement goes through _write exactly once and is counted once: SE01 = seg_count + 1 is taken '
               'from this counter in visit_gs_post')
@@ -45,7 +98,7 @@ contract('pyx12.error_997.error_997_visitor.visit_gs_pre',
                   'self.st_loop_count == old(self.st_loop_count) + 1',
                   'len(self.fd.log) == len(old(self.fd.log)) + 2'],
          raises={},
-         alias=ABS_SEG,
+         alias=ABS_SEG, build='build_vis_gs_pre',
          serves=['C06'],
          note='opening an acknowledgement set writes exactly ST and AK1 and leaves the counter at 2 = segments of the open set '
               '(ST included): the counter invariant that visit_gs_post turns into SE01')
@@ -57,7 +110,7 @@ contract('pyx12.error_997.error_997_visitor.visit_st_pre',
          ensures=['self.seg_count == old(self.seg_count) + 1', 'len(self.fd.log) == len(old(self.fd.log)) + 1',
                   'self.fd.log[:-1] == old(self.fd.log)'] + FRAME,
          raises={'EngineError': 'err_st.trn_set_id is None', 'AttributeError': 'err_st.trn_set_id is not None and err_st.trn_set_control_num is None'},
-         alias=ABS_SEG,
+         alias=ABS_SEG, build='build_vis_st_pre',
          serves=['C06'],
          note='AK2: one segment written and counted.  The two exceptional outcomes (an err_st whose ST01/ST02 are None) are stated '
               'exactly, not excluded; whether the validator can hand over such an err_st is decided by the pipeline stand-in, not here')
